@@ -71,3 +71,102 @@ func RandIntN(n int) int {
 	randState = randState*6364136223846793005 + 1442695040888963407
 	return int((randState >> 33) % uint64(n))
 }
+
+// ---------------------------------------------------------------------------
+// Seeded preemption points (build rule R8). The instrumenter inserts Point()
+// before every statement of the system under test. Worker processes run with
+// one P and without asynchronous preemption, so goroutines switch only where
+// they block; Point adds switches in between, decided by a PRNG that is seeded
+// per run: an in-step interleaving is then part of the replayable execution.
+
+var (
+	pointOn    bool
+	pointState uint64
+	pointMask  uint64
+	// Points counts the preemptions taken in the current run.
+	Points int
+)
+
+// SeedPoints arms the preemption points for one run: a switch is taken at a
+// point with probability 1/(mask+1); rate 0 turns them off.
+func SeedPoints(seed uint64, oneIn uint64) {
+	Points = 0
+	if oneIn == 0 {
+		pointOn = false
+		return
+	}
+	pointOn = true
+	pointMask = oneIn - 1 // oneIn is a power of two
+	pointState = seed*0x9E3779B97F4A7C15 + 0x2545F4914F6CDD1D
+	if pointState == 0 {
+		pointState = 1
+	}
+}
+
+// StartPoints must be called inside the bubble before the system starts; the returned function
+// stops the helper goroutines again (the bubble cannot end while they live).
+//
+// A preemption is not runtime.Gosched(): that puts the goroutine on the scheduler's global run queue, which
+// is polled every 61st scheduling decision of the P, a counter that survives from run to run, so the order
+// inside a step would depend on the history of the worker process. Instead the goroutine parks on a channel
+// and a helper readies it again and then readies a second helper: the Go scheduler keeps the most recently
+// readied goroutine in the P's "next" slot and moves the previous occupant to the tail of the P's local run
+// queue, so every goroutine that was runnable runs before the preempted one continues. Only local-queue
+// operations are involved; if a future runtime changes that detail the preemption merely becomes a no-op.
+func StartPoints() (stop func()) {
+	req := make(chan chan struct{})
+	kick := make(chan struct{})
+	pointReq = req
+	go func() {
+		for range kick {
+		}
+	}()
+	go func() {
+		for d := range req {
+			close(d)
+			kick <- struct{}{}
+		}
+		close(kick)
+	}()
+	return func() {
+		pointOn = false
+		pointReq = nil
+		close(req)
+	}
+}
+
+var pointReq chan chan struct{}
+
+// Point is a scheduling point of the simulator.
+func Point() {
+	if !pointOn {
+		return
+	}
+	x := pointState
+	x ^= x << 13
+	x ^= x >> 7
+	x ^= x << 17
+	pointState = x
+	if x&pointMask == 0 && pointReq != nil {
+		Points++
+		d := make(chan struct{})
+		pointReq <- d
+		<-d
+	}
+}
+
+// ---------------------------------------------------------------------------
+// Per-run tuning knobs (build rule R9): a constant of the system under test that only affects performance is read
+// through Knob so that a world can vary it; unset knobs have the shipped value.
+
+var knobs = map[string]int{}
+
+func SetKnob(name string, v int) { knobs[name] = v }
+func ClearKnobs()                { knobs = map[string]int{} }
+
+func Knob(name string, def int) int {
+	if v, ok := knobs[name]; ok {
+		return v
+	}
+	return def
+}
